@@ -1,11 +1,20 @@
 """C19 — the engine copied into browser bundles plays stories like the main engine.
 
-(1) Coq gate for Props/C19.v (partial theorems: on the common subset the model never uses what the fork lacks).
-(2) Translation validation of the fork: (a) `fork_diff` - an ast comparison of engine.py and engine_browser.py,
-    regenerated on every run: the functions whose bodies differ must be among those the argument of Props/C19.v
-    accounts for; (b) the SAME model (Engine/Engine.v) is compared inside Coq with the real BROWSER engine on
-    generated common-subset stories x histories; (c) the two real engines are compared with each other step by
-    step (outputs, variables, used choices, undo/redo flags) including save -> JSON -> load hand-overs.
+(1) Coq gate for Props/C19.v: the refinement theorem `browser_model_refines_main_model` (Proofs/BrowserSim.v) - for
+    every oracle, every common-subset story and EVERY operation list the separate model of the fork
+    (Engine/BrowserEngine.v) and the model of the main engine (Engine/Engine.v) give the same observations and views
+    step by step, hooks / join progress aside - plus the four older lemmas.
+(2) Ties of the two models to the two implementations, on the same generated common-subset stories x histories
+    (choose / undo / redo / goto / reset / reads and save -> JSON -> load into a fresh engine), compared inside Coq:
+    (a) the real BROWSER engine (engine_browser.BardEngine imported from the working tree) vs the BROWSER model
+        (BrowserCheck.ecase_bad_b, full view: the fork has no hooks / join progress and the model shows none);
+    (b) the real MAIN engine vs the MAIN model (EngineCheck.ecase_bad);
+    (c) the two models with each other on the same cases (BrowserCheck.models_differ: an executable instance of the
+        theorem - it can only fire if the generator leaves the common subset);
+    (d) the two real engines with each other step by step (outputs, variables, used choices, undo/redo flags, save
+        documents) - model-independent;
+    (e) `fork_diff` - an ast comparison of engine.py and engine_browser.py regenerated on every run: every function
+        whose body differs must be one BrowserEngine.v models separately (or that is outside the modelled domain).
 (3) Bundle contents: create_browser_bundle on a generated story (with an @include) - game.json must equal what
     compile_file produces and the copied engine must be byte-identical to the template."""
 from __future__ import annotations
@@ -25,19 +34,20 @@ from .pymini import Unsupported
 
 # functions of the fork whose bodies are allowed to differ from the main engine, and why
 ACCOUNTED = {
-    "BardEngine.__init__": "no hook registry / join index attributes",
-    "BardEngine._execute_imports": "imports are pre-bundled in the browser (outside the common subset: no imports generated)",
-    "BardEngine._get_safe_builtins": "no __import__ in the browser",
-    "BardEngine._execute_commands": "no hook commands (excluded by common_story)",
-    "BardEngine._render_content": "no hook / join_marker tokens (excluded by common_story)",
-    "BardEngine._render_passage": "no section filter (vacuous: section_filter_vacuous_partial)",
-    "BardEngine.choose": "no '-> @join' path, no turn_end run (plain_choice_is_ordinary_navigation_partial, hooks_inert...)",
-    "BardEngine.goto": "no join progress reset; passage id computed after the paren scan",
-    "BardEngine.save_state": "no hooks / join progress in the document",
-    "BardEngine.load_state": "no hooks / join progress in the document",
-    "GameSnapshot.from_engine": "no hooks / join progress in the snapshot",
-    "GameSnapshot.restore_to": "no hooks / join progress in the snapshot",
+    "BardEngine.__init__": "no hook registry / join index attributes (BrowserEngine.init_b; the fields are never touched)",
+    "BardEngine._execute_imports": "imports are pre-bundled in the browser (outside the modelled domain: no imports generated)",
+    "BardEngine._get_safe_builtins": "no __import__ in the browser (author code is an oracle in both models)",
+    "BardEngine._execute_commands": "BrowserEngine.exec_command_b: hook commands fall through",
+    "BardEngine._render_content": "BrowserEngine.render_tok_b: hook / join_marker tokens fall through",
+    "BardEngine._render_passage": "BrowserEngine.render_passage_b / filter_choices_b: no section filter",
+    "BardEngine.choose": "BrowserEngine.choose_b / choose_nav_b: no '-> @join' path, no turn_end run",
+    "BardEngine.goto": "BrowserEngine.goto_rec_b: no join progress reset; passage id computed after the paren scan",
+    "BardEngine.save_state": "no hooks / join progress in the document (BrowserCheck.step_b OpReload/OpSave/OpLoad)",
+    "BardEngine.load_state": "no hooks / join progress in the document (BrowserCheck.step_b OpReload/OpSave/OpLoad)",
+    "GameSnapshot.from_engine": "no hooks / join progress in the snapshot (BrowserEngine.restore_b)",
+    "GameSnapshot.restore_to": "no hooks / join progress in the snapshot (BrowserEngine.restore_b)",
 }
+HEADER_B = R.HEADER + "\nFrom Bardic Require Import BrowserEngine BrowserCheck."
 ONLY_MAIN_OK = {"BardEngine._execute_hook_command", "BardEngine._execute_join_choice", "BardEngine._render_from_join_marker",
                 "BardEngine.from_file", "BardEngine.register_hook", "BardEngine.trigger_event", "BardEngine.unregister_hook"}
 ONLY_BROWSER_OK = {"BardEngine.delete_browser_save", "BardEngine.list_browser_saves", "BardEngine.load_from_browser",
@@ -245,7 +255,7 @@ def run(tier: str, seed: int) -> int:
         if f not in ONLY_BROWSER_OK:
             chk.disagree("fork_diff", f"function {f} exists only in the browser engine and is not accounted for", {"function": f})
 
-    terms, metas = [], []
+    terms_b, terms_m, metas = [], [], []
     for i in range(n_cases):
         sub = rng.randrange(10 ** 9)
         r = random.Random(sub)
@@ -282,29 +292,67 @@ def run(tier: str, seed: int) -> int:
         chk.count(("b", sub), nontrivial)
         if i < 2:
             chk.sample({"subseed": sub, "story_source": src, "ops": [x[0] for x in both[1:]]})
-        # the one model vs the real BROWSER engine (histories without the save/load hand-over, which is a
-        # harness-level operation)
-        plain_ops = [o for o in ops if o[0] != "saveload"]
-        recs, eng = R.run_history(story, plain_ops, browser=True)
-        if any(x["obs"][0] == "timeout" for x in recs):
+        # the two models vs the two implementations, on the same concrete history (the save/load hand-over is the
+        # model's OpReload: save -> JSON text -> load into a fresh engine, play continues there)
+        model_ops = [("reload",) if o[0] == "saveload" else o for o in ops]
+        recs_b, _ = R.run_history(story, model_ops, browser=True)
+        recs_m, _ = R.run_history(story, model_ops, browser=False)
+        if any(x["obs"][0] == "timeout" for x in recs_b + recs_m):
             continue
         try:
-            terms.append(R.case_term(story, recs))
-            metas.append((sub, src, recs))
+            tb_, tm_ = R.case_term(story, recs_b), R.case_term(story, recs_m)
         except Unsupported:
             stats["unsupported"] += 1
+            continue
+        terms_b.append(tb_)
+        terms_m.append(tm_)
+        metas.append((sub, src, recs_b, recs_m))
 
-    bad, shown, log = C.run_coq_cases(chk.scratch, R.HEADER, terms, "ecase", "ecase_bad_browser", shard=25, show_fn="ecase_show")
+    def replay(b, which):
+        sub, src, recs_b, recs_m = metas[b]
+        recs = recs_b if which == "browser" else recs_m
+        return {"subseed": sub, "story_source": src, "ops": [x["op"] for x in recs[1:]], "obs": [x["obs"] for x in recs[1:]]}
+
+    # (a) real browser engine vs browser model
+    bad, shown, log = C.run_coq_cases(chk.scratch, HEADER_B, terms_b, "ecase", "ecase_bad_b", shard=25, show_fn="ecase_show_b")
     for b in bad:
         if isinstance(b, int):
-            sub, src, recs = metas[b]
-            chk.report("browser-engine-departs-from-model",
-                       "the browser engine differs from the engine model (for which the main engine's properties are proved) "
-                       "on a common-subset history",
-                       {"subseed": sub, "story_source": src, "ops": [x["op"] for x in recs[1:]],
-                        "obs": [x["obs"] for x in recs[1:]], "model_first_difference": (shown.get(b) or "")[:2500]})
+            chk.disagree("browser-engine-vs-browser-model",
+                         "the real browser engine and its model (Engine/BrowserEngine.v) differ on a common-subset history",
+                         dict(replay(b, "browser"), model_first_difference=(shown.get(b) or "")[:2500]))
         else:
             chk.disagree("browser-coqc", "a case shard failed to evaluate", {"log": log[-1500:]})
+    # (a') real browser engine vs MAIN model without hooks / join (the comparison of the earlier version of this check:
+    # a departure is a concrete history on which the fork does not play like the engine the properties are proved for)
+    bad, shown, log = C.run_coq_cases(chk.scratch, R.HEADER, terms_b, "ecase", "ecase_bad_browser", shard=25, show_fn="ecase_show")
+    for b in bad:
+        if isinstance(b, int):
+            chk.report("browser-engine-departs-from-model",
+                       "the browser engine differs from the main engine model (for which the main engine's properties are "
+                       "proved) on a common-subset history",
+                       dict(replay(b, "browser"), model_first_difference=(shown.get(b) or "")[:2500]))
+        else:
+            chk.disagree("browser-coqc", "a case shard failed to evaluate", {"log": log[-1500:]})
+    # (b) real main engine vs main model
+    bad, shown, log = C.run_coq_cases(chk.scratch, R.HEADER, terms_m, "ecase", "ecase_bad", shard=25, show_fn="ecase_show")
+    for b in bad:
+        if isinstance(b, int):
+            chk.disagree("main-engine-vs-main-model",
+                         "the real main engine and its model (Engine/Engine.v) differ on a common-subset history",
+                         dict(replay(b, "main"), model_first_difference=(shown.get(b) or "")[:2500]))
+        else:
+            chk.disagree("main-coqc", "a case shard failed to evaluate", {"log": log[-1500:]})
+    # (c) the two models on the same cases: an instance of the proved refinement
+    bad, shown, log = C.run_coq_cases(chk.scratch, HEADER_B, terms_b, "ecase", "models_differ", shard=25)
+    for b in bad:
+        if isinstance(b, int):
+            chk.disagree("models-differ-on-a-generated-case",
+                         "main model and browser model differ outside hooks/join: the generated story is not in the common "
+                         "subset (generator fault) - the theorem assumes common_story",
+                         replay(b, "browser"))
+        else:
+            chk.disagree("models-coqc", "a case shard failed to evaluate", {"log": log[-1500:]})
+    terms = terms_b
     stats["bundles"] = bundle_check(chk, rng)
     chk.cov["programs"] = len(terms)
     chk.cov["disagreements_checked"] = len(terms)
